@@ -59,6 +59,9 @@ type Fault struct {
 	End  string `json:"end,omitempty"` // cut: rst | fin
 	Dir  string `json:"dir,omitempty"` // blackhole: c2s | s2c | both
 	Ms   int    `json:"ms,omitempty"`  // blackhole / stall / refuse: duration; restart: downtime
+	// rst / fin placed on a frame: false = the frame is lost, true = the frame
+	// still gets through and the connection ends right behind it
+	After bool `json:"after,omitempty"`
 }
 
 // Step is one fault and where it is placed.
@@ -108,6 +111,8 @@ func genFault(t *rapid.T, timeoutMs int) Fault {
 		}
 	}
 	switch f.Kind {
+	case "rst", "fin":
+		f.After = rapid.Bool().Draw(t, "afterFrame")
 	case "cut":
 		switch rapid.IntRange(0, 2).Draw(t, "kClass") {
 		case 0:
@@ -139,7 +144,7 @@ func genCase(t *rapid.T) Case {
 		TimeoutMs:  rapid.SampledFrom([]int{500, 700, 1000}).Draw(t, "timeout"),
 		Observer:   rapid.SampledFrom([]string{"func", "chan", "both"}).Draw(t, "observer"),
 	}
-	if rapid.IntRange(0, 9).Draw(t, "connectFault") < 3 {
+	if rapid.IntRange(0, 9).Draw(t, "connectFault") < 2 {
 		st := Step{At: "connect", On: rapid.SampledFrom(connectFrames).Draw(t, "connectOn"), Fault: genFault(t, c.TimeoutMs)}
 		c.Connect = &st
 	}
@@ -386,6 +391,9 @@ func clientGoroutines() map[int]string {
 
 var errInfra = errors.New("infrastructure")
 
+// errEnv: the environment was not fit for the case (no verdict, no failure).
+var errEnv = errors.New("environment not fit")
+
 func infra(format string, args ...any) error {
 	return fmt.Errorf("%w: %s", errInfra, fmt.Sprintf(format, args...))
 }
@@ -412,6 +420,7 @@ func debugf(format string, a ...any) {
 
 const (
 	livenessBound  = 20 * time.Second
+	stuckSilence   = 10 * time.Second
 	quietWindow    = 1500 * time.Millisecond
 	leakFirstWait  = 5 * time.Second
 	leakConfirm    = 25 * time.Second
@@ -436,6 +445,11 @@ func (r *runner) class(format string, a ...any) { r.classes[fmt.Sprintf(format, 
 
 func faultClass(f Fault) string {
 	switch f.Kind {
+	case "rst", "fin":
+		if f.After {
+			return f.Kind + "-behind-frame"
+		}
+		return f.Kind
 	case "cut":
 		return "cut+" + f.End
 	case "blackhole":
@@ -620,8 +634,17 @@ func (r *runner) step(i int, st Step, async bool) {
 		r.finish(st.Fault, ok, async)
 	case "reconnect":
 		tr := r.net.arm(st.On, true, st.Fault)
-		if r.cl.State() == opcua.Connected {
+		if strings.HasSuffix(st.On, ":CreateSession") || strings.HasSuffix(st.On, ":TransferSubscriptions") {
+			// these frames only occur when the session is gone: the reconnect is
+			// provoked by a (quick) server restart
+			r.class("reconnect-provoked-by:restart")
+			r.finish(Fault{Kind: "restart"}, false, false)
+			if r.infra != nil {
+				return
+			}
+		} else if r.cl.State() == opcua.Connected {
 			// provoke a reconnect
+			r.class("reconnect-provoked-by:rst")
 			r.net.kill(false)
 		}
 		select {
@@ -648,29 +671,46 @@ func (r *runner) step(i int, st Step, async bool) {
 	}
 }
 
-// control tells whether the active server serves a fresh, directly connected
-// client (no proxy). If not, a liveness failure says nothing about the client.
+// control tells whether the environment is fit for a client configured like
+// the one under test: a fresh client (same RequestTimeout and DialTimeout, no
+// auto-reconnect) connects to the active server through a healthy proxy of its
+// own and reads five times. If that fails, a client that keeps trying without
+// success says nothing about the client.
 func (r *runner) control() error {
 	r.p.mu.Lock()
-	url, nid := r.p.active.URL, r.p.active.NodeID(varName)
+	nid := r.p.active.NodeID(varName)
 	r.p.mu.Unlock()
-	c, err := stack.Connect(url, opcua.SecurityMode(ua.MessageSecurityModeNone), opcua.AutoReconnect(false), opcua.RequestTimeout(5*time.Second))
+	fn, err := newFaultNet(r.p.addr())
 	if err != nil {
 		return err
 	}
+	defer fn.tap.Close()
+	c, err := opcua.NewClient("opc.tcp://"+fn.tap.Addr(), opcua.SecurityMode(ua.MessageSecurityModeNone), opcua.AutoReconnect(false),
+		opcua.RequestTimeout(time.Duration(r.c.TimeoutMs)*time.Millisecond), opcua.DialTimeout(time.Second))
+	if err != nil {
+		return err
+	}
+	ctx, cancel := context.WithTimeout(context.Background(), connectTimeout)
+	err = c.Connect(ctx)
+	cancel()
 	defer func() {
 		ctx, cancel := context.WithTimeout(context.Background(), 3*time.Second)
 		c.Close(ctx)
 		cancel()
 	}()
-	ctx, cancel := context.WithTimeout(context.Background(), 6*time.Second)
-	defer cancel()
-	dv, err := stack.ReadValue(ctx, c, nid)
 	if err != nil {
 		return err
 	}
-	if dv.Status != ua.StatusOK {
-		return dv.Status
+	for i := 0; i < 5; i++ {
+		ctx, cancel := context.WithTimeout(context.Background(), 3*time.Second)
+		dv, err := stack.ReadValue(ctx, c, nid)
+		cancel()
+		if err != nil {
+			return err
+		}
+		if dv.Status != ua.StatusOK {
+			return dv.Status
+		}
 	}
 	return nil
 }
@@ -813,8 +853,12 @@ func execute(c Case, fresh bool) (res result, err error) {
 		obs.mark(markConnectErr)
 		r.class("connect:failed")
 		if c.Connect == nil {
-			// nothing was injected: the environment is broken, not the client
-			return res, infra("Connect on a healthy network: %v", cerr)
+			// nothing was injected: the environment is not fit (machine too busy
+			// for the request timeout), not the client
+			ctx, cancel := context.WithTimeout(context.Background(), 5*time.Second)
+			cl.Close(ctx)
+			cancel()
+			return res, fmt.Errorf("%w: Connect on a healthy network: %v", errEnv, cerr)
 		}
 		debugf("connect failed: %v", cerr)
 		// the client is not connected: it must not claim to be, not even after a while
@@ -880,16 +924,30 @@ func execute(c Case, fresh bool) (res result, err error) {
 				lastErr = fmt.Sprintf("status %v, State() %s", st, stateNames[int(cl.State())])
 			}
 			if time.Since(t0) > livenessBound {
-				if w := hb.Settle(); 10*w > livenessBound {
-					res.starved = true
-					break
-				}
-				if ce := r.control(); ce != nil {
-					// the server itself does not serve a fresh client: not this property's subject
-					return res, infra("after heal the server does not serve a directly connected control client either: %v", ce)
-				}
+				w := hb.Settle()
+				idle := fn.idleFor()
+				stateNow := stateNames[int(cl.State())]
 				res.observed.Goroutines = sortedGoroutines(clientGoroutines())
-				fail(true, "%v after the network healed (proxy forwards, server up and serving a control client) the client has not come back: State() is %s, last Read: %s", livenessBound, stateNames[int(cl.State())], lastErr)
+				switch {
+				case idle >= stuckSilence && 10*w <= stuckSilence:
+					// the client does nothing at all: no connection attempt reached
+					// the proxy and no frame came back for >= 10 s although every wait
+					// of the configuration ends within 1.25 s
+					fail(true, "%v after the network healed (proxy forwards, server up) the client has not come back and has stopped trying: no connection attempt and no frame from the server for %v, State() is %s, last Read: %s", livenessBound, idle.Round(time.Second), stateNow, lastErr)
+				case idle >= stuckSilence:
+					res.starved = true
+				case 10*w > time.Duration(c.TimeoutMs)*time.Millisecond:
+					// the client keeps trying; this process is too slow for its timeouts
+					res.starved = true
+				default:
+					if ce := r.control(); ce != nil {
+						debugf("control client failed: %v", ce)
+						res.starved = true
+						r.class("liveness-failed-but-control-client-failed-too(inconclusive)")
+						break
+					}
+					fail(true, "%v after the network healed (proxy forwards, server up and serving a control client with the same timeouts) the client keeps trying but has not come back: State() is %s, last Read: %s", livenessBound, stateNow, lastErr)
+				}
 				break
 			}
 			time.Sleep(25 * time.Millisecond)
@@ -945,7 +1003,14 @@ func execute(c Case, fresh bool) (res result, err error) {
 
 	// no new connection attempt: a connect() that began before Close returned
 	// may be accepted a moment later, so the count starts after a grace period
+	hbGrace := starve.Begin()
 	time.Sleep(200 * time.Millisecond)
+	// the proxy's accept loop is a goroutine of this process: give it 10 x the
+	// wake-up lateness the heartbeats of this process see
+	for w := hbGrace.Settle(); 10*w > time.Since(tClose) && time.Since(tClose) < 5*time.Second; w = hbGrace.Settle() {
+		time.Sleep(100 * time.Millisecond)
+	}
+	grace := time.Since(tClose)
 	acc0 := fn.tap.Accepted()
 	quietEnd := time.Now().Add(quietWindow)
 	for time.Now().Before(quietEnd) {
@@ -955,7 +1020,7 @@ func execute(c Case, fresh bool) (res result, err error) {
 		time.Sleep(20 * time.Millisecond)
 	}
 	if acc1 := fn.tap.Accepted(); acc1 != acc0 {
-		fail(false, "the proxy accepted %d new connection(s) between %v and %v after Close had returned", acc1-acc0, 200*time.Millisecond, 200*time.Millisecond+quietWindow)
+		fail(false, "the proxy accepted %d new connection(s) between %v and %v after Close had returned", acc1-acc0, grace.Round(time.Millisecond), (grace + quietWindow).Round(time.Millisecond))
 	}
 
 	// goroutines
@@ -985,7 +1050,9 @@ func execute(c Case, fresh bool) (res result, err error) {
 				still[id] = d
 			}
 		}
-		if len(still) > 0 {
+		if w := hbGrace.Settle(); len(still) > 0 && 10*w > leakConfirm {
+			res.starved = true
+		} else if len(still) > 0 {
 			gs := sortedGoroutines(still)
 			res.observed.Goroutines = gs
 			fail(false, "%d client-side gopcua goroutine(s) that did not exist before NewClient are still running %v after Close returned: %s", len(still), time.Since(tClose).Round(time.Second), strings.Join(gs, " || "))
@@ -1085,7 +1152,19 @@ func execute(c Case, fresh bool) (res result, err error) {
 // verdict with confirmation (DESIGN 3.4)
 
 func decide(c *Case, log func(string, ...any)) (msg string, res result, err error) {
-	res, err = execute(*c, false)
+	for try := 0; ; try++ {
+		res, err = execute(*c, false)
+		if !errors.Is(err, errEnv) {
+			break
+		}
+		debugf("%v", err)
+		if try == 2 {
+			// no verdict: counted, never a failure
+			rec.Inconclusive()
+			return "", result{classes: []string{"skipped(environment-not-fit:healthy-connect-failed-3x)"}}, nil
+		}
+		time.Sleep(time.Second)
+	}
 	if err != nil || res.verdict == "" {
 		return "", res, err
 	}
@@ -1122,6 +1201,30 @@ func TestLifecycle(t *testing.T) {
 		}
 		poolMu.Unlock()
 	}()
+	// one directed script per shard first: windows that the random scripts hit
+	// only now and then
+	if sh, _ := ev.Shard(); sh < len(directed) && os.Getenv("VERIF_C25_NO_DIRECTED") == "" {
+		c := directed[sh]
+		rec.Journal("TestLifecycle", c)
+		msg, res, err := decide(&c, func(f string, a ...any) { t.Logf(f, a...) })
+		rec.JournalDone("TestLifecycle")
+		if err != nil {
+			t.Fatalf("infrastructure failure (not a violation): %v", err)
+		}
+		if os.Getenv("VERIF_C25_DEBUG") != "" {
+			cj, _ := json.Marshal(c)
+			debugf("directed case %s\n   func[%s]\n   chan[%s]\n   verdict %q\n   classes %v", cj, res.observed.StatesFunc, res.observed.StatesChan, msg, res.classes)
+		}
+		cc := c
+		cc.Observed = nil
+		b, _ := json.Marshal(cc)
+		rec.Case(res.nontriv, ev.Hash(b), append(res.classes, "directed-script")...)
+		if msg != "" {
+			if sig := knownSig(c, msg); sig == "" || !rec.Known(sig) {
+				rec.Fail(t, "TestLifecycle", c, "%s", msg)
+			}
+		}
+	}
 	rapid.Check(t, func(rt *rapid.T) {
 		c := genCase(rt)
 		rec.Journal("TestLifecycle", c)
@@ -1148,6 +1251,26 @@ func TestLifecycle(t *testing.T) {
 			rec.Fail(rt, "TestLifecycle", c, "%s", msg)
 		}
 	})
+}
+
+// directed scripts (one per shard, before the random ones)
+var directed = []Case{
+	// the ACK of a reconnect never arrives; the network heals later
+	{IntervalMs: 50, TimeoutMs: 700, Observer: "func", Steps: []Step{{At: "reconnect", On: "c2s:HEL", Fault: Fault{Kind: "blackhole", Dir: "s2c", Ms: 2000}}}},
+	// Close while a reconnect waits for its ACK
+	{IntervalMs: 50, TimeoutMs: 700, Observer: "both", Steps: []Step{{At: "reconnect", On: "s2c:ACK", Fault: Fault{Kind: "blackhole", Dir: "both", Ms: 1700}}}, CloseEarly: true},
+	// the connection dies with the last, tolerated request of a reconnect
+	{IntervalMs: 100, TimeoutMs: 700, Observer: "func", Steps: []Step{{At: "reconnect", On: "s2c:TransferSubscriptions", Fault: Fault{Kind: "rst"}}}},
+	// ... and right behind the last response of a reconnect that kept its session
+	{IntervalMs: 100, TimeoutMs: 500, Observer: "chan", Steps: []Step{{At: "reconnect", On: "s2c:Read", Fault: Fault{Kind: "rst", After: true}}, {At: "reconnect", On: "s2c:Read", Fault: Fault{Kind: "fin", After: true}}}},
+	// Close while the reconnect loop runs against a proxy that refuses
+	{IntervalMs: 50, TimeoutMs: 500, Observer: "both", Steps: []Step{{At: "idle", Fault: Fault{Kind: "refuse", Ms: 2000}, PauseMs: 300}}, CloseEarly: true},
+	// the first connect loses its connection after the monitor was started
+	{IntervalMs: 50, TimeoutMs: 500, Observer: "both", Connect: &Step{At: "connect", On: "s2c:Read", Fault: Fault{Kind: "rst"}}, Steps: []Step{{At: "idle", Fault: Fault{Kind: "rst"}}}},
+	// restart after an outage while a request is in flight, then a stalled OPN of the next reconnect
+	{IntervalMs: 200, TimeoutMs: 1000, Observer: "chan", Steps: []Step{{At: "req", Fault: Fault{Kind: "restart", Ms: 1200}, PauseMs: 100}, {At: "reconnect", On: "c2s:OPN", Fault: Fault{Kind: "stall", Ms: 1100}}}},
+	// Close right after a reset (the monitor is just starting to reconnect)
+	{IntervalMs: 50, TimeoutMs: 500, Observer: "func", Steps: []Step{{At: "resp", Fault: Fault{Kind: "rst"}}}, CloseEarly: true},
 }
 
 // knownSig maps a failure to the signature of a known finding (input class +
